@@ -58,6 +58,19 @@ def macKeysSender (v : Version) (secret eSecret headerHash : Bytes) :
     | .error e, _ => .error e
     | _, .error e => .error e
 
+/-- the calls `computeMACKeysSender` makes on the *long-term* sender key object
+    (C12): one `Box` of 32 zero bytes per receiver (the second V2 box is made by
+    the ephemeral key).  An anonymous sender has no long-term key. -/
+def senderCalls (v : Version) (sender : Option Bytes) (headerHash : Bytes) : List Recipient → Nat → List KeyCall
+  | [], _ => []
+  | r :: rs, i =>
+    (match sender with
+     | none => []
+     | some s =>
+       if v = v1 then [KeyCall.box s r.pub (Nonce.macKeyBoxV1 headerHash) (zeros 32)]
+       else [KeyCall.box s r.pub (Nonce.macKeyBoxV2 headerHash false i) (zeros 32)])
+    ++ senderCalls v sender headerHash rs (i + 1)
+
 /-- receiver entries of the header, in (already shuffled) order -/
 def receiverEntries (v : Version) (eph payloadKey : Bytes) : List Recipient → Nat → Except Err (List RecvKeys)
   | [], _ => .ok []
